@@ -28,7 +28,7 @@ func init() {
 	chk.Register(&chk.Check{ID: "C04", Run: func(r *chk.Run) { RunScaleRetry(r, "C04") }, Replay: replayScaleE1})
 	chk.Register(&chk.Check{ID: "C07", Run: func(r *chk.Run) { RunScaleRetry(r, "C07"); RunNested(r) }, Replay: replayScaleE1})
 	chk.Register(&chk.Check{ID: "C05", Run: func(r *chk.Run) { RunBacklogTeardown(r); RunNested(r) }, Replay: replayScaleE1})
-	chk.Register(&chk.Check{ID: "C06", Run: func(r *chk.Run) { r.SetExhaustive(true) }, Replay: replayScaleE1})
+	chk.Register(&chk.Check{ID: "C06", Run: RunSchemaLookupFails, Replay: replayScaleE1})
 	chk.Register(&chk.Check{ID: "C08", Run: RunScaleKept, Replay: replayScaleE1})
 }
 
@@ -52,6 +52,10 @@ func replayScaleE1(kind string, input json.RawMessage) (bool, string) {
 		return ReplayScale(input)
 	case "nest":
 		return ReplayNest(input)
+	case "partial":
+		return ReplayPartial(input)
+	case "schema":
+		return ReplaySchema(input)
 	}
 	return false, "unknown replay kind " + kind
 }
@@ -291,6 +295,7 @@ func RunBacklogTeardown(r *chk.Run) {
 // they are read again when the stream has ended.
 func RunScaleKept(r *chk.Run) {
 	RunScale(r, "big-events", "kept-cells", "cap-transactions", "packet-sizes", "big-transaction")
+	RunPartialImages(r)
 	r.Rule("scale half (native, one schedule per execution): histories that are large in one dimension (rows events of 6 KB .. 300 KB, packets of exactly 2^k-1 / 2^k / 2^k+1 bytes and around the sizes at which the driver changes its buffering, transactions with exactly as many events as each capacity a growing slice passes through, 8000 kept rows on one table id, one transaction of 20000 rows events); oracle: every delivered transaction equals the reference when it is delivered and again, unchanged, when the stream has ended")
 	r.SetExhaustive(true)
 }
